@@ -293,7 +293,7 @@ func (g *G) TWCCFrom(st []int, style int) V {
 	for k, s := range st {
 		switch s {
 		case 1:
-			deltas = append(deltas, V{"t": 1, "ticks": g.Pick(0, 1, 254, 255, (k*7+1)%256), "rem": g.Pick(0, 0, 1, 249)})
+			deltas = append(deltas, V{"t": 1, "ticks": g.Pick(0, 1, 254, 255, (k*7+1)%256), "rem": g.Pick(0, 0, 1, 249), "big": 0})
 			content++
 		case 2:
 			tk := g.Pick(-32768, -1, 0, 256, 32767, (k*257+3)%32768)
@@ -301,7 +301,7 @@ func (g *G) TWCCFrom(st []int, style int) V {
 			if tk < 0 {
 				rem = -rem
 			}
-			deltas = append(deltas, V{"t": 2, "ticks": tk, "rem": rem})
+			deltas = append(deltas, V{"t": 2, "ticks": tk, "rem": rem, "big": 0})
 			content += 2
 		}
 	}
